@@ -319,10 +319,13 @@ def operand(kind: str, level: str, right: bool, rng=None, variant: int = 0) -> D
     raise ValueError(kind)
 
 
-def random_expr(rng, level: str, d: int, allow_defect: bool = False, no_f32_inexact: bool = True) -> Dict[str, Any]:
-    """Type-directed random scalar expression of depth ≤ d over the property's operators."""
+def random_expr(rng, level: str, d: int, allow_defect: bool = False, no_f32_inexact: bool = True, atoms=None) -> Dict[str, Any]:
+    """Type-directed random scalar expression of depth ≤ d over the property's operators.  `atoms(rng, level)`, when
+    given, supplies a third of the terms (the sign / literal-width families below)."""
 
     def term(right: bool):
+        if atoms is not None and rng.random() < 0.34:
+            return atoms(rng, level)
         if level == "evt" and rng.random() < 0.2:
             return rng.choice([sum_leaf("i"), sum_leaf("f"), sum_leaf("d"), count_leaf("J")])
         k = rng.choice(["intLit", "intCount", "intCount", "float", "double", "double", "bool"])
@@ -344,6 +347,182 @@ def random_expr(rng, level: str, d: int, allow_defect: bool = False, no_f32_inex
         return cmpop(rng.choice(list(CMP_OPS)), go(d - 1, False), go(d - 1, True))
 
     return go(d, False)
+
+
+# ---------------------------------------------------------------------------------------------- signs and literal widths
+# Two regions of "Python numerics on the declared value types" that the operator x kind table does not reach at depth
+# one with small positive literals:
+#  * SIGN.  An integer operand (a count, an integer accessor, a Sum of integers) is a *signed* Python int: a
+#    subtraction or negation that goes below zero, a negative literal as partner of a comparison.  Whatever C++
+#    expression the value is taken from has to behave like a signed integer in every consumer that can tell the
+#    difference: `/`, a real partner, `**`, the six comparisons, a conditional's test and arms, a double column.
+#  * WIDTH OF A LITERAL.  A Python int literal has no width; a C++ integer literal is `int` up to 2^31-1 and `long`
+#    beyond.  Literals around and beyond 2^31 (and below -2^31) as operands of `/`, of comparisons, next to reals,
+#    inside conditionals and folds.  (An int-typed *result* beyond 32 bits is outside the assumptions - signed
+#    overflow -, so a wide literal is only generated where the stored value is real, a truth value, or a remainder.)
+WIDE_LITS = [2**31 - 1, 2**31, 2**31 + 1, 2**32, 10**10, 2**40 + 1]
+
+
+def neg_lit(n: int) -> Dict[str, Any]:
+    """`-n` as Python parses it: unary minus on the constant n"""
+    return unop("USub", int_lit(n))
+
+
+def int_operands(level: str) -> List[Dict[str, Any]]:
+    """every spelling of an integer-valued operand at this level"""
+    if level == "jet":
+        return [leaf("jet", "i"), leaf("jet", "i2")]
+    return [count_leaf("J1"), count_leaf("J2"), count_leaf("J"), sum_leaf("i"), leaf("evt", "i")]
+
+
+def negative_inners(x, y, k: int = 5) -> List[Dict[str, Any]]:
+    """integer expressions over the operand x (and a second operand y) that are negative on some of the samples"""
+    return [binop("Sub", x, int_lit(k)), binop("Sub", x, y), unop("USub", x), binop("Mult", x, neg_lit(1)), binop("Sub", int_lit(1), x)]
+
+
+def sign_consumers(inner, x, level: str) -> List[Dict[str, Any]]:
+    """forms in which the sign of `inner` (an integer expression over the operand x) is observable"""
+    d = leaf(level, "d")
+    return [
+        form_plain(inner),  # stored in an int column
+        form_plain(binop("Div", inner, int_lit(2))),
+        form_plain(binop("Mult", inner, flt_lit(0.5))),
+        form_plain(binop("Add", d, inner)),
+        form_plain(binop("Pow", inner, int_lit(2))),
+        form_plain(cmpop("Lt", inner, int_lit(0))),
+        form_plain(cmpop("GtE", inner, neg_lit(2))),
+        form_plain(cmpop("Gt", x, neg_lit(1))),
+        form_plain(cmpop("Eq", inner, neg_lit(2))),
+        form_plain(cmpop("Lt", neg_lit(3), inner)),
+        form_cond(cmpop("Gt", d, int_lit(1)), inner, flt_lit(0.5)),
+        form_cond(cmpop("Lt", inner, int_lit(0)), d, flt_lit(2.5)),
+    ]
+
+
+def wide_forms(x, lit, level: str) -> List[Dict[str, Any]]:
+    """forms that put the literal `lit` (an expression: a wide constant or its negation) next to the integer operand x"""
+    d = leaf(level, "d")
+    return [
+        form_plain(binop("Div", x, lit)),
+        form_plain(binop("Div", lit, x)),
+        form_plain(binop("Div", lit, int_lit(2))),
+        form_plain(binop("Div", binop("Add", x, lit), int_lit(2))),
+        form_plain(binop("Div", binop("Sub", x, lit), lit)),
+        form_plain(cmpop("Lt", x, lit)),
+        form_plain(cmpop("GtE", lit, x)),
+        form_plain(cmpop("Eq", binop("Add", x, lit), lit)),
+        form_plain(binop("Add", d, lit)),
+        form_plain(binop("Mult", lit, d)),
+        form_plain(binop("Sub", binop("Div", x, int_lit(2)), lit)),
+        form_cond(cmpop("Gt", d, int_lit(1)), lit, flt_lit(0.5)),
+        form_cond(cmpop("Lt", x, lit), d, flt_lit(2.5)),
+    ]
+
+
+def wide_mod_forms(x, n: int) -> List[Dict[str, Any]]:
+    """remainders with a wide POSITIVE literal: integer results that fit an int"""
+    return [form_plain(binop("Mod", int_lit(n), int_lit(7))), form_plain(binop("Mod", x, int_lit(n)))]
+
+
+def sign_atoms(rng, level: str) -> Dict[str, Any]:
+    xs = int_operands(level)
+    x, y = rng.choice(xs), rng.choice(xs)
+    c = rng.random()
+    if c < 0.3:
+        return neg_lit(rng.choice([1, 2, 3, 9]))
+    if c < 0.85:
+        return rng.choice(negative_inners(x, y, rng.choice([5, 9, 12])))
+    return x
+
+
+def wide_atoms(rng, level: str) -> Dict[str, Any]:
+    n = rng.choice(WIDE_LITS)
+    return neg_lit(n) if rng.random() < 0.3 else int_lit(n)
+
+
+def is_wide(e) -> bool:
+    """an integer literal of the WIDTH family: beyond 32 bits (a `long` in C++) or close to the limit (still an `int`)"""
+    return isinstance(e, dict) and "int" in e and abs(e["int"]) >= 2**30
+
+
+def is_cpp_int_literal(e) -> bool:
+    """a (possibly signed) integer literal that C++ types `int`"""
+    while "un" in e and e["un"][0] in ("USub", "UAdd"):
+        e = e["un"][1]
+    return "int" in e and e["int"] < 2**31
+
+
+def has_wide(e: Any) -> bool:
+    if isinstance(e, dict):
+        return is_wide(e) or any(has_wide(v) for k, v in e.items() if not k.startswith("_"))
+    if isinstance(e, list):
+        return any(has_wide(v) for v in e)
+    return False
+
+
+def py_kind(e) -> str:
+    """static Python kind of an expression (the Spec's `Expr.pyKind true`): int / bool / float"""
+    if "leaf" in e:
+        return {"int": "int", "bool": "bool"}.get(e["leaf"][0], "float")
+    if "int" in e:
+        return "int"
+    if "flt" in e:
+        return "float"
+    if "bool" in e:
+        return "bool"
+    if "cmp" in e:
+        return "bool"
+    if "un" in e:
+        return "bool" if e["un"][0] == "Not" else ("float" if py_kind(e["un"][1]) == "float" else "int")
+    op, l, r = e["bin"]
+    if op in ("Div", "Pow"):
+        return "float"
+    return "float" if "float" in (py_kind(l), py_kind(r)) else "int"
+
+
+def wide_safe(form) -> bool:
+    """A wide literal stays where the assumptions hold: no binary32 operand in the form (float op long is computed in
+    binary32), never under `**` or `%`, under `*` only next to a real (no 64-bit overflow), a literal close to the limit
+    that is still an `int` in C++ (2^31-1) not under `+`/`-` with an integer partner (int + int overflows; with a `long`
+    literal the sum is a `long`), and the value that is STORED (plain column, conditional arm) is real or a truth value -
+    an int column beyond 32 bits is out of scope."""
+    if not has_wide(form):
+        return True
+    if has_float32(form):
+        return False
+
+    def strip_neg(e):
+        while "un" in e and e["un"][0] in ("USub", "UAdd"):
+            e = e["un"][1]
+        return e
+
+    def ok(e) -> bool:
+        for k in ("bin", "cmp"):
+            if k in e:
+                op, l, r = e[k]
+                if has_wide(l) or has_wide(r):
+                    if op in ("Pow", "Mod"):
+                        return False
+                    if op == "Mult" and "float" not in (py_kind(l), py_kind(r)):
+                        return False
+                    if op in ("Add", "Sub") and "float" not in (py_kind(l), py_kind(r)):
+                        if any(has_wide(x) and is_cpp_int_literal(x) for x in (l, r)):
+                            return False
+                return ok(l) and ok(r)
+        if "un" in e:
+            return ok(e["un"][1])
+        return True
+
+    def stored_ok(e) -> bool:
+        return not has_wide(e) or py_kind(e) != "int"
+
+    if form["form"] == "plain":
+        return ok(form["e"]) and stored_ok(form["e"])
+    if form["form"] == "cond":
+        t, a, b = form["t"], form["a"], form["b"]
+        # an arm that is a bare wide literal is stored in the double result variable: exact
+        return all(ok(x) for x in (t, a, b)) and all(stored_ok(x) or is_wide(strip_neg(x)) for x in (a, b))
+    return False
 
 
 # ---------------------------------------------------------------------------------------------- sample values
